@@ -101,7 +101,7 @@ def run(ctx):
     base = dict(max_parents=2, max_edges=3, counts=[0, 1, 2], spans=[1, 2], mu_halves=[2, 1],
                 caps=[2, 3, 1000], max_iters=2)
     if not q:
-        base.update(max_edges=3, counts=[0, 1, 2], caps=[2, 3, 5, 1000], max_iters=3)
+        base.update(max_edges=3, counts=[0, 1, 2], caps=[2, 3, 5, 1000], max_iters=2)  # 3 iterations overflow 32-bit rationals
     musts = ["ExactUncapped", "ShapeCapped", "Book", "NoOverflow"]
     tmo = 900 if q else 3000
     # NoOverflow is an invariant in the quick scope (known to fit 32-bit rationals) and a state constraint in
@@ -122,7 +122,7 @@ def run(ctx):
     insts = ctx.tlc("EPStar", cfg, workers=4, coverage=False, timeout=tmo).rec("inst")
     # a parent whose mutations sit almost entirely on one edge makes _damp return a step < 1 on the
     # re-visit (the message is >= 90% of the posterior); counts <= 3 never do (added after seed C20-a)
-    damp = dict(max_parents=1, max_edges=2 if q else 3, counts=[0, 1, 12], spans=[1, 2], mu_halves=[2, 1],
+    damp = dict(max_parents=1, max_edges=2, counts=[0, 1, 12], spans=[1, 2], mu_halves=[2, 1],
                 caps=[1000, 5], max_iters=2)
     cfg = ctx.write_cfg("epstar_damp.cfg", constants=ec.star_consts(**damp), invariants=musts[:3], constraints=["NoOverflow"])
     ctx.tlc("EPStar", cfg, workers=8)
